@@ -184,7 +184,9 @@ class RunDirector(Director):
                 if res is None or self.w.keys[f["key"]]["res"] != res:
                     continue
             f["_fired"] = True
-            self.fired.append(dict(f, _key=key if key is not None else f.get("key")))
+            # _key None = the stub could not tell which key this call served (unknown file naming): the oracle
+            # then treats every requested key of that resource as possibly failed
+            self.fired.append(dict(f, _key=key))
             return f
         return None
 
@@ -277,6 +279,7 @@ class World:
         self.results = []  # (op id, normalised outcome) of every GET: what the caller saw
         self.abstract_states = set()
         self.miss_log = {}
+        self.current_req = []
         self.chunk = k.get("chunk", 4096)
 
     # ------------------------------------------------------------------ setup
@@ -292,8 +295,17 @@ class World:
         co.tqdm = lambda it, **kw: it
         rr.requests = RequestsShim(self)
         import multiprocessing.pool as mpp
+        import concurrent.futures as cf
+        import concurrent.futures.thread as cft
+        import threading
         self._saved["mpp.ThreadPool"] = mpp.ThreadPool
         mpp.ThreadPool = simpool.SimPool
+        self._saved["cf"] = (cf.ThreadPoolExecutor, cft.ThreadPoolExecutor, cf.as_completed, cf.wait, threading.Thread)
+        cf.ThreadPoolExecutor = simpool.SimExecutor
+        cft.ThreadPoolExecutor = simpool.SimExecutor
+        cf.as_completed = simpool.sim_as_completed
+        cf.wait = simpool.sim_wait
+        threading.Thread = simpool.SimThread
         fc._ACTIVE_FILE_CACHES.clear()
         self.sim_resource = build_sim_resource(self)
 
@@ -302,7 +314,11 @@ class World:
         self.co.tqdm = self._saved["tqdm"]
         self.rr.requests = self._saved["requests"]
         import multiprocessing.pool as mpp
+        import concurrent.futures as cf
+        import concurrent.futures.thread as cft
+        import threading
         mpp.ThreadPool = self._saved["mpp.ThreadPool"]
+        cf.ThreadPoolExecutor, cft.ThreadPoolExecutor, cf.as_completed, cf.wait, threading.Thread = self._saved["cf"]
         self.fc._ACTIVE_FILE_CACHES.clear()
 
     def _resources(self):
@@ -323,8 +339,33 @@ class World:
         return None
 
     # ------------------------------------------------------- remote side stubs
+    def _key_from_content(self, filepath):
+        """Fallback attribution when file names do not follow the documented scheme: the self-describing
+        content names its resource; among the keys of the current request that resource is usually unique."""
+        node = self.fs.h_node(filepath)
+        if node is None or node.kind != "f":
+            return None
+        data = bytes(node.data)
+        pp = data.startswith(b"PP(") and data.endswith(b")")
+        if pp:
+            data = data[3:-1][::-1]
+        if not data.startswith(b"SIM1|"):
+            return None
+        try:
+            res = data.split(b"|", 2)[1].decode()
+        except Exception:
+            return None
+        cands = [k for k in self.current_req if self.keys[k]["res"] == res]
+        cands = sorted(set(cands))
+        if len(cands) == 1:
+            return cands[0]
+        return None
+
     def _attribute_key(self, filepath, res):
         key = self.key_for_path(filepath)
+        if key is not None:
+            return key
+        key = self._key_from_content(filepath)
         if key is not None:
             return key
         # best effort when the code downloads to a temporary name: look up the call stack for an object
@@ -770,6 +811,7 @@ class World:
             obs.result = "opened"
         elif kind == "GET":
             self.stats["gets"] += 1
+            self.current_req = list(op["keys"])
             uris = [self.uris[i] for i in op["keys"]]
             if op.get("val"):
                 # per-occurrence override of the validate directive (the same uri may be named with and
